@@ -161,6 +161,15 @@ Example C04_nested_no_success_after_failure :
   count_der DFail 0 (log s) = 1 /\ count_der DSucc 0 (log s) = 0.
 Proof. vm_compute. repeat split; auto. Qed.
 
+(* the kind of exception a handler raises (Exception subclass, BaseException subclass that is not an Exception,
+   GeneratorExit — the harness' case parameter `xk`) is ignored by the model: programs that differ only in it
+   are the same program, so every theorem above holds for every choice of kinds, for plain handlers and for
+   generator handlers at any step *)
+Theorem C04_raise_kind_irrelevant : forall k k' ys lk gr,
+  RRaiseK k = RRaiseK k' /\ HGK k ys lk gr = HGK k' ys lk gr.
+Proof. exact raise_kind_irrelevant. Qed.
+Print Assumptions C04_raise_kind_irrelevant.
+
 (* non-vacuity: a raising handler, a generator that yields twice, a generator that raises late,
    success + failure requested; ticks stepping the two tasks in both orders *)
 Definition ex_prog : list ev :=
